@@ -37,7 +37,9 @@ BASES_FIT = np.array([list("ZZ"), list("XY"), list("ZZ")])
 
 def bound(tier):
     return dict(operations=OPS, depth_all_seeds=2, depth_seed0=3 if tier == "quick" else 4, seeds=[0, 1, 1234, "VERIF_SEED"], kinds=["positive", "complex", "mixed"],
-                thorough_note="depth 4 over the 8 randomised/stateful operations" if tier != "quick" else "")
+                thorough_note="depth 4 over the 8 randomised/stateful operations" if tier != "quick" else "",
+                fresh_process=dict(hash_seeds=HASHSEEDS[tier], script="fit (5 distinct bases in one batch) x2, sample, System.statistics, gradient, exact gradient"),
+                repeat_on_same_inputs=["sample", "Observable.statistics", "Observable.statistics:uneven", "System.statistics", "Observable.sample", "ObservableEvaluator"])
 
 
 HASHSEEDS = {"quick": ["0", "1", "2"], "thorough": ["0", "1", "2", "3", "4", "12345"]}
